@@ -306,10 +306,51 @@ def rule_limit(prog, rep):
             rep.instance("C21.LIMIT", "%s: Err iff count > limit" % fn.name.replace("apollo_compiler::", ""))
 
 
+def rule_search(prog, rep):
+    """C21.SEARCH: the validators that guarantee acyclicity (their verdict is what lets later
+    unguarded recursions - introspection depth, execution - terminate) are depth-first searches
+    returning Result<(), CycleError<_>>.  A search is complete only if, inside a loop over the
+    children of a node, nothing but an error leaves the function: an `Ok` return from inside the
+    loop abandons the remaining siblings, a cycle through one of them goes unreported, and the
+    document is wrongly `Valid`."""
+    rep.floor("C21.SEARCH", 8)
+    from ..flow import loop_headers
+    from ..tables import enum_paths, return_value_on_path
+    from ..core import Undecided
+    n = 0
+    for f in sorted(prog.fns.values(), key=lambda g: g.name):
+        out = f.d.get("sig_out") or ""
+        if f.crate != "apollo_compiler" or "CycleError<" not in out or not out.startswith("std::result::Result<()"):
+            continue
+        for h, (some, _none, _c) in sorted(loop_headers(f).items()):
+            try:
+                ps = enum_paths(f, start=some, stops={h}, inner_loops="cut")
+            except Undecided as e:
+                rep.fail("UNDECIDED rule=C21.SEARCH %s: %s" % (f.name, e))
+                continue
+            bad = []
+            for _a, end, path in ps:
+                if f.term(end)[0] != "ret":
+                    continue
+                rv = return_value_on_path(f, path) or ""
+                if "from_residual(" in rv or rv.startswith("Result::Err{"):
+                    continue
+                bad.append(rv[:80])
+            n += 1
+            if bad:
+                rep.finding("C21.SEARCH", f.name, "early-ok",
+                            "the cycle search returns `%s` from inside its loop over sibling nodes: the remaining siblings are never visited, so a cycle through them is not reported and later unguarded recursions over the `Valid` document do not terminate" % bad[0], f.loc())
+            else:
+                rep.instance("C21.SEARCH", "%s: loop at bb%d is left early only with an error" % ("::".join(f.name.split("::")[-2:]), h))
+    if not n:
+        raise AnchorError("no Result<(), CycleError<_>> search function with a loop found")
+
+
 def run(prog, rep):
     rule_cut(prog, rep)
     rule_limit(prog, rep)
     rule_sort(prog, rep)
+    rule_search(prog, rep)
     if rep.tier == "thorough":
         from . import inv_compiler
         inv_compiler.run(prog, rep)
